@@ -39,5 +39,23 @@ def jobs(tier, seed):
                      clause="14.a2", bound="every week of every month of years 1..9999; 1st of the month on weekday %d" % wd))
     return J
 
+def fallback_candidates(j):
+    """concrete inputs for the native confirmation of a solver-flagged obligation (the body's draw order)"""
+    out = []
+    ys = [1582, 2024, 1900, 1]
+    if j.body.endswith("c14a_weeks") or j.body.endswith("c14a_days"):
+        for y in ys:
+            for m in range(1, 13):
+                for start in range(7):
+                    for idx in range(0, 7 if j.body.endswith("c14a_weeks") else 6):
+                        out.append([y, m, start, idx])
+    elif j.body.endswith("c14b_week_of_date"):
+        for y in ys:
+            for m in range(1, 13):
+                for d in (1, 2, 4, 15, 16, 20, 28, 30, 31):
+                    for start in range(7):
+                        out.append([y, m, d, start])
+    return out
+
 def describe(j, vals):
     return {"inputs_as_i64": [v if v < (1 << 63) else v - (1 << 64) for v in vals]}
